@@ -483,6 +483,7 @@ def process_fn(repo, glob, fs, log):
                 continue
             if nth != "all": spans = [spans]
             for (s, e) in spans:
+                if nth == "all" and is_covered(s): continue
                 ed.add(s, e, b, rule, kw); logrule(rule, s, src[s:e], b)
         elif kw == "hint":
             p = parse_quoted(rest)
@@ -675,6 +676,8 @@ def main():
         linemap = [None if o is None else [o[0], o[1]] for (_, o) in out_lines]
         json.dump({"unit": glob["unit"], "serves": glob["serves"], "functions": fns, "rewrites": log, "linemap": linemap, "skipped_rewrites": SKIPPED, "lost_hints": LOST_HINTS, "canary_fns": canary_fns, "canary_single": canary_single, "canary_ranges": dup_ranges}, open(out_map, "w"))
         print(f"vx: {glob['unit']}: {len(fns)} functions extracted, {len(log)} rule instances")
+        for sk in SKIPPED: print(f"vx: note: rewrite not applied in {sk['fn']}: {sk['why']}")
+        for lh in LOST_HINTS: print(f"vx: note: hint anchor lost in {lh['fn']}: {lh['why']}")
     except VxError as e:
         print(f"vx: UNDECIDED {e}")
         sys.exit(2)
